@@ -2,7 +2,8 @@
 # usage: try_neutral.sh <patch.diff>...  — applies each behaviour-preserving patch to a scratch copy of /repo's current tree, runs
 # ALL twenty quick checks against it (in parallel) and prints one line per patch with the checks that raised an alarm (none expected).
 # Full outputs of alarming checks are kept under /tmp/neutral-reports/.
-cd /verif
+ROOT="$(dirname "$(readlink -f "$0")")/.."; ROOT="$(readlink -f "$ROOT")"
+cd "$ROOT"
 mkdir -p /tmp/neutral-reports
 for P in "$@"; do
   PA="$(readlink -f "$P")"
@@ -24,4 +25,4 @@ for P in "$@"; do
   echo "$P: ${bad:-silent}"
   rm -rf "$D"
 done
-git -C /verif checkout -q -- evidence 2>/dev/null || true
+git -C "$ROOT" checkout -q -- evidence 2>/dev/null || true
